@@ -19,7 +19,8 @@ META = {
               "L = |reachable states| + 1 frames from any reachable state (completeness threshold of the finite "
               "state graph), per initiator",
     "outside": "behaviour under rst; N > 5",
-    "assumptions": ["owner(s) as established observationally by the C08 analysis (re-run here)",
+    "assumptions": ["owner(s) as established observationally by the C08 analysis (re-run here); when the full relation "
+                    "cannot be established, by who receives the target's responses",
                     "released = not (owner.cyc and (no LOCK feature or owner.lock or owner.stb))"],
 }
 
@@ -30,6 +31,12 @@ def check(cfg, out, stats):
     h = make()
     ts = h.translate()
     res = analyse(cfg, h, stats, out, "C09")
+    relation = "full"
+    if res is None:
+        # the full ownership relation (C08's subject) fails for this arbiter; fairness is then judged on who receives
+        # the target's responses
+        relation = "ack"
+        res = analyse(cfg, h, stats, out, "C09", relation="ack")
     out.extra = {}
     if res is None:
         out.skipped = "no single owner per state (reported under C08)"
@@ -74,7 +81,7 @@ def check(cfg, out, stats):
                  "what": f"C09 from owner {i} (state {list(r)}) ownership goes to {owner[s2]} but round-robin "
                          f"order requires {e} (configuration {cfg_key(cfg)})",
                  "query": "no-preemption" if bz else "next-owner", "cfg": cfg, "path": R.path[r], "stimulus": stim,
-                 "owner": i, "expected": e, "prefix": 0, "k": 0, "detail": {}}
+                 "owner": i, "expected": e, "prefix": 0, "k": 0, "detail": {}, "relation": relation}
             stats.replays += 1
             if not replay_violation(v):
                 raise Inconclusive("next-owner counterexample does not reproduce on the simulator")
@@ -129,7 +136,7 @@ def check(cfg, out, stats):
                  "what": f"C09 initiator {j} requests continuously and is never granted although the bus is "
                          f"released within the loop (configuration {cfg_key(cfg)})",
                  "query": "starvation-lasso", "cfg": cfg, "path": R.path[s0], "stimulus": stim, "victim": j,
-                 "prefix": 0, "k": 0, "detail": {}}
+                 "prefix": 0, "k": 0, "detail": {}, "relation": relation}
             stats.replays += 1
             if not replay_violation(v):
                 raise Inconclusive("starvation lasso does not reproduce on the simulator")
